@@ -9,15 +9,18 @@
 package estargz_test
 
 import (
+	"archive/tar"
 	"bufio"
 	"bytes"
 	"compress/gzip"
 	"encoding/json"
+	"fmt"
 	"io"
 	"os"
 	"runtime"
 	"sync"
 	"testing"
+	"time"
 
 	"github.com/containerd/stargz-snapshotter/estargz"
 	"github.com/containerd/stargz-snapshotter/estargz/externaltoc"
@@ -25,16 +28,65 @@ import (
 	"github.com/klauspost/compress/zstd"
 )
 
+// wMeta: the tar header metadata that has to survive (Writer.tla Meta)
+type wMeta struct {
+	Mode  int64 `json:"mode"`
+	UID   int   `json:"uid"`
+	GID   int   `json:"gid"`
+	Mtime int64 `json:"mtime"` // unix seconds, 0 = none
+}
+
 type wEnt struct {
 	Name string `json:"name"`
 	Type string `json:"type"`
 	Link string `json:"link"`
 	Size int64  `json:"size"`
 	C    string `json:"c"` // content id
+	Meta wMeta  `json:"meta"`
+}
+
+// buildTarMeta materialises the model input with its metadata. The content of a file depends on
+// (name, size, mode): a repeated name with other metadata also has other content.
+func contentOf(e wEnt) []byte {
+	if e.Type != "reg" {
+		return []byte{}
+	}
+	return selfDescribing(fmt.Sprintf("%s@%o", e.Name, e.Meta.Mode), e.Size)
+}
+
+func buildTarMeta(ents []wEnt) ([]byte, error) {
+	var buf bytes.Buffer
+	tw := tar.NewWriter(&buf)
+	for _, e := range ents {
+		h := &tar.Header{Name: e.Name, Mode: e.Meta.Mode, Uid: e.Meta.UID, Gid: e.Meta.GID, Format: tar.FormatUSTAR}
+		if e.Meta.Mtime != 0 {
+			h.ModTime = time.Unix(e.Meta.Mtime, 0)
+		}
+		switch e.Type {
+		case "dir":
+			h.Typeflag = tar.TypeDir
+		case "reg":
+			h.Typeflag, h.Size = tar.TypeReg, e.Size
+		case "link":
+			h.Typeflag, h.Linkname = tar.TypeLink, e.Link
+		default:
+			return nil, fmt.Errorf("entry type %q", e.Type)
+		}
+		if err := tw.WriteHeader(h); err != nil {
+			return nil, err
+		}
+		if _, err := tw.Write(contentOf(e)); err != nil {
+			return nil, err
+		}
+	}
+	if err := tw.Close(); err != nil {
+		return nil, err
+	}
+	return buf.Bytes(), nil
 }
 
 type wCase struct {
-	Tar      []sEnt `json:"tar"`
+	Tar      []wEnt `json:"tar"`
 	Mode     string `json:"mode"` // build | writer | lossless
 	Scheme   string `json:"scheme"`
 	Chunk    int    `json:"chunk"`
@@ -66,6 +118,8 @@ type wRow struct {
 	Name  string `json:"name"`
 	Type  string `json:"type"`
 	Size  int64  `json:"size"`
+	Link  string `json:"link"`
+	Meta  wMeta  `json:"meta"`
 	O     int64  `json:"o"`
 	Cs    int64  `json:"cs"`
 	Off   int64  `json:"off"`
@@ -123,14 +177,15 @@ func runWriterCase(idx int, c wCase) wEvent {
 		Input: []wEnt{}, Order: []wEnt{}, Hdr: []int64{}, Members: []wMember{}, Toc: []wRow{}}
 	content := map[string][]byte{estargz.NoPrefetchLandmark: {0xf}, estargz.PrefetchLandmark: {0xf}}
 	for _, e := range c.Tar {
-		b := []byte{}
+		b := contentOf(e)
 		if e.Type == "reg" {
-			b = selfDescribing(e.Name, e.Size)
 			content[e.Name] = b // the last one of a name wins
+		} else {
+			delete(content, e.Name)
 		}
-		ev.Input = append(ev.Input, wEnt{Name: e.Name, Type: e.Type, Link: e.Link, Size: e.Size, C: sha(b)})
+		ev.Input = append(ev.Input, wEnt{Name: e.Name, Type: e.Type, Link: e.Link, Size: e.Size, C: sha(b), Meta: e.Meta})
 	}
-	tarBytes, err := buildTar(c.Tar)
+	tarBytes, err := buildTarMeta(c.Tar)
 	if err != nil {
 		ev.Err, ev.ErrText = "driver", err.Error()
 		return ev
@@ -207,7 +262,8 @@ func runWriterCase(idx int, c wCase) wEvent {
 	last := int64(0)
 	for _, e := range vb.Entries {
 		typ := e.Type
-		ev.Order = append(ev.Order, wEnt{Name: e.Name, Type: typ, Link: e.Link, Size: e.Size, C: e.ContentSHA})
+		ev.Order = append(ev.Order, wEnt{Name: e.Name, Type: typ, Link: e.Link, Size: e.Size, C: e.ContentSHA,
+			Meta: wMeta{Mode: e.Mode, UID: e.UID, GID: e.GID, Mtime: e.ModTime}})
 		ev.Hdr = append(ev.Hdr, e.DataStart-e.HdrStart)
 		last = e.DataStart + (e.Size+511)/512*512
 	}
@@ -236,7 +292,15 @@ func runWriterCase(idx int, c wCase) wEvent {
 		if typ == "hardlink" {
 			typ = "link"
 		}
-		r := wRow{Name: t.Name, Type: typ, Size: t.Size, O: t.ChunkOffset, Cs: t.ChunkSize, Off: t.Offset, Inner: t.InnerOffset,
+		var mt int64
+		if t.ModTime3339 != "" {
+			if tm, err := time.Parse(time.RFC3339, t.ModTime3339); err == nil {
+				mt = tm.Unix()
+			} else {
+				mt = -1
+			}
+		}
+		r := wRow{Name: t.Name, Type: typ, Size: t.Size, Link: t.LinkName, Meta: wMeta{Mode: t.Mode, UID: t.UID, GID: t.GID, Mtime: mt}, O: t.ChunkOffset, Cs: t.ChunkSize, Off: t.Offset, Inner: t.InnerOffset,
 			Cd: t.ChunkDigest, Fd: t.Digest}
 		r.Data = t.Type == "chunk" || (t.Type == "reg" && t.Size > 0)
 		if t.Type == "reg" {
